@@ -5,7 +5,9 @@ package verifsim
 // simnet: the UDP sockets go-upf listens on (N4 and GTP-U), as simhook.PacketBackend.
 
 import (
+	"fmt"
 	"net"
+	"net/netip"
 	"sync"
 	"syscall"
 	"time"
@@ -65,7 +67,7 @@ func (k *Sock) WriteTo(p []byte, addr net.Addr) (int, error) {
 	default:
 	}
 	k.mu.Lock()
-	o := &OutPkt{N: len(k.out), Step: k.sim.stepNo, At: k.sim.since(), Dst: addr.String(), B: append([]byte(nil), p...)}
+	o := &OutPkt{N: len(k.out), Step: k.sim.curStep(), At: k.sim.since(), Dst: addr.String(), B: append([]byte(nil), p...)}
 	if k.failNext > 0 {
 		k.failNext--
 		o.Err = true
@@ -120,9 +122,10 @@ func (k *Sock) outLen() int {
 }
 
 func udpAddr(s string) *net.UDPAddr {
-	a, err := net.ResolveUDPAddr("udp4", s)
+	// literals only: the harness must never reach a real resolver
+	ap, err := netip.ParseAddrPort(s)
 	if err != nil {
-		panic(err)
+		panic(fmt.Sprintf("harness: udpAddr(%q): %v", s, err))
 	}
-	return a
+	return net.UDPAddrFromAddrPort(ap)
 }
